@@ -1811,6 +1811,11 @@ fn read_residuals<R: BitRead, I: SignedInteger>(
         let partition_order = reader.read::<4, u32>()?;
         let partition_count = 1 << partition_order;
 
+        // the block must divide evenly into non-empty partitions
+        if block_size < partition_count || !block_size.is_multiple_of(partition_count) {
+            return Err(Error::InvalidPartitionOrder);
+        }
+
         let partitions = residuals.rchunks_mut(block_size / partition_count).rev();
 
         if partitions.len() != partition_count {
